@@ -164,6 +164,29 @@ pub fn run(ctx: &Ctx, out: &mut CaseOut) {
                 crate::common::slg_subsumed_answers(&mut s)
             })
         };
+        // F11 evidence (W before the last goal or M after it) when goals[0..=k] are solved in order on one concrete SLG solver
+        let seq_stale = |lp: &Loaded, k: usize| -> bool {
+            with_program(lp, || {
+                let mut s = chalk_engine::solve::SLGSolver::<I>::new(10, None);
+                let mut ev = false;
+                for (i, g) in goals.iter().take(k + 1).enumerate() {
+                    if let Ok(goal) = lower_goal_text(lp, g) {
+                        use chalk_solve::ext::GoalExt;
+                        let pg = goal.into_peeled_goal(chalk_integration::interner::ChalkIr);
+                        if i == k {
+                            ev = crate::common::slg_goal_table_stale(&mut s, &pg);
+                        }
+                        let db = FaultDb::new(&*lp.program, "slg");
+                        db.budget.set(300_000);
+                        let _ = solve(&mut s, &db, &pg);
+                        if i == k {
+                            ev = ev || crate::common::slg_stale_table(&mut s, &pg);
+                        }
+                    }
+                }
+                ev
+            })
+        };
         let gi_of = |g: &str| goals.iter().position(|x| x == g).unwrap_or(0);
         let mut s2 = choice.into_solver();
         with_program(&l2, || {
@@ -211,7 +234,7 @@ pub fn run(ctx: &Ctx, out: &mut CaseOut) {
                                 Some("logging:relevant-item-never-served")
                             } else if f12 {
                                 Some("slg:trivial-answer-green-cut-order")
-                            } else if solver_name(&choice) == "slg" && ((a == "No possible solution" && b != "No possible solution" && orig_stale(g)) || (b == "No possible solution" && a != "No possible solution" && crate::common::fresh_slg_stale(&l2, &peeled))) {
+                            } else if solver_name(&choice) == "slg" && ((a == "No possible solution" && b != "No possible solution" && (orig_stale(g) || seq_stale(&l, gi_of(g)))) || (b == "No possible solution" && a != "No possible solution" && (crate::common::fresh_slg_stale(&l2, &peeled) || seq_stale(&l2, gi_of(g)))) || (a.starts_with("Ambiguous") != b.starts_with("Ambiguous") && a.starts_with("Unique") != b.starts_with("Unique") && (seq_stale(&l, gi_of(g)) || seq_stale(&l2, gi_of(g))))) {
                                 // F11: the two programs list items in different orders, and one of the two searches lost the answer
                                 Some("slg:stale-delayed-answer-table")
                             } else if solver_name(&choice) == "slg" && crate::common::slg_order_signature(a, a.starts_with("Ambiguous") && seq_subsumed(&l, gi_of(g)), &b, b.starts_with("Ambiguous") && seq_subsumed(&l2, gi_of(g))).is_some() {
